@@ -58,8 +58,32 @@ Definition of_layout (l : layout) : sx :=
 Definition sx_vu (x : sx) : option (Q * unit_) :=
   match x with SL [q; u] => match sx_q q, sx_unit u with Some q, Some u => Some (q, u) | _, _ => None end | _ => None end.
 
+Definition sx_gval (x : sx) : option gval :=
+  match x with
+  | SL [SI 0; _] => Some GOther
+  | SL [SI 1; a] => option_map GSize (sx_size a)
+  | SL [SI 2; a] => option_map GPoint (sx_point a)
+  | SL [SI 3; a] => option_map GStretch (sx_stretch a)
+  | SL [SI 4; a] => option_map GPadding (sx_padding a)
+  | SL [SI 5; a] => option_map GAlign (sx_alignment a)
+  | SL [SI 6; a] => option_map GLayout (sx_layout a)
+  | _ => None
+  end.
+Definition sx_size2 (x : sx) : option (size * size) :=
+  match x with SL [a; b] => match sx_size a, sx_size b with Some a, Some b => Some (a, b) | _, _ => None end
+  | _ => None end.
+
 Definition req_geom (code : Z) (arg : sx) : sx :=
   match code, arg with
+  | 1808, SL [a; b] =>
+      match sx_gval a, sx_gval b with Some a, Some b => of_bool (gval_eqb a b) | _, _ => bad end
+  | 1809, SL [a; b; e; n; h] =>
+      match sx_gval a, sx_gval b, sx_bool e, sx_bool n, sx_bool h with
+      | Some a, Some b, Some e, Some n, Some h => of_bool (ok_eq_g a b e n h)
+      | _, _, _, _, _ => bad end
+  | 1810, SS s => of_result (fun p => SL [of_size (fst p); of_size (snd p)]) (two_sizes s)
+  | 1811, SL [SS s; obs] =>
+      match sx_result sx_size2 obs with Some o => of_bool (ok_two s o) | None => bad end
   | 1800, SS s => of_result of_size (size_from_string s)
   | 1801, SL [SS s; obs] =>
       match sx_result sx_vu obs with Some o => of_bool (ok_parse s o) | None => bad end
@@ -97,7 +121,7 @@ Definition req_geom (code : Z) (arg : sx) : sx :=
 
 Definition dispatch (code : Z) (arg : sx) : option sx :=
   match code with
-  | 1800 | 1801 | 1802 | 1803 | 1804 | 1805 | 1806 | 1807
+  | 1800 | 1801 | 1802 | 1803 | 1804 | 1805 | 1806 | 1807 | 1808 | 1809 | 1810 | 1811
   | 1300 | 1301 | 1302 | 1303 | 1304 => Some (req_geom code arg)
   | _ => None
   end.
